@@ -33,6 +33,10 @@ def search(rundir, tier, seed, log, only):
         inputs, tags, expect = [only['input']], ['replay'], [only['spec'].get('must_reject')]
     else:
         inputs, tags, expect = pc.gen_search.c04_cases(**SIZES[tier])
+        for d in pc.corpus('C04'):
+            inputs.append(d['_bytes'])
+            tags.append('corpus-file')
+            expect.append(d.get('must_reject') or None)
     out = pc.run_go(rundir, '-c04', inputs, 'c04')
     pre, out = out[0], out[1:]
     if len(out) != len(inputs):
@@ -73,7 +77,7 @@ def search(rundir, tier, seed, log, only):
             samples.append({'leg': 'search', 'generator': tag, 'input': pc.show(b), 'hex': b.hex(), 'observed': o[:300]})
     # class predicate of the listed finding: accepted only because U+212A / U+0130 lower-case to ASCII letters
     cand = [f for f in failures if f['check'].startswith('forbidden-accepted') and len(f.get('all', [])) == 1 and
-            any(c in bytes.fromhex(f['hex']).decode('utf-8', 'replace') for c in 'Kİ')]
+            any(c in bytes.fromhex(f['hex']).decode('utf-8', 'replace') for c in '\u212a\u0130')]
     if cand:
         import check_c03
         a = pc.run_go(rundir, '-c03', [bytes.fromhex(f['hex']) for f in cand], 'c04_kwu')
